@@ -72,6 +72,7 @@ def run_history(family, ops, seed, want_trace=False):
         _verif.emit("new_model", owner=_verif.oid(model), family=family)
     pending = []
     fantasy_raised = []
+    fantasies = []          # (step, pv/dv recorded by the spec, fantasy model, reference built at its creation)
     compared = 0
     alt_states = [G.perturbed_state(model, lik, seed + 7 + k) for k in range(3)]
     n_load = 0
@@ -199,6 +200,10 @@ def run_history(family, ops, seed, want_trace=False):
                 fok, fres = core.guarded(lambda: model.get_fantasy_model(xf, yf))
                 if not fok:
                     fantasy_raised.append(fres)      # whether fantasies are supported here is C04's question; the source must stay usable
+                elif family == "exact":
+                    # what the new model denotes is fixed now: the source's current parameters and data plus (xf, yf)
+                    ref, _ = G.clone_fresh(model, lik, family, torch.cat([model.train_inputs[0], xf], -2), torch.cat([model.train_targets, yf], -1))
+                    fantasies.append((i, fres, ref))
             elif a == "Backward":
                 if pending:
                     out = pending[-1]
@@ -211,6 +216,28 @@ def run_history(family, ops, seed, want_trace=False):
                     model.zero_grad(set_to_none=True)
             else:
                 raise core.Machinery("unknown action %r" % a)
+            if i == len(ops) - 1:
+                # closing observation: every fantasy model created on the way is an object of its own - whatever was done to its
+                # source afterwards, it equals the model built from the source's state at its creation (first evaluation: caches it has
+                # not filled yet must not be filled from the source's later state)
+                for (fi, fmodel, ref) in fantasies:
+                    s0 = dict(fpv=False, detach=True, jit="d0")
+                    e0 = dict(lazy=True, eager=512, skipvar=False, xb="flat")
+                    lok, lres = core.guarded(lambda: predict(fmodel, s0, e0))
+                    fok, fres = core.guarded(lambda: predict(ref, s0, e0))
+                    compared += 1
+                    evs = (list(_verif.events) if _verif else [])
+                    later = "+".join(o["a"] for o in ops[fi + 1:]) or "nothing"
+                    if not fok:
+                        raise core.Machinery("reference of a fantasy model raised: %s" % fres)
+                    if not lok:
+                        return dict(step=fi, what="fantasy-raises-later", why="fantasy model of step %d, observed after %s: %s" % (fi, later, lres),
+                                    settings={}, stale_jit=False, stale_cls=False, fantasy=True), compared, evs
+                    for nm, u, v in (("mean", lres[1], fres[1]), ("covariance", lres[2], fres[2])):
+                        ok, why = core.close(u, v, 1e-7, 1e-9)
+                        if not ok:
+                            return dict(step=fi, what="fantasy-follows-its-source/" + nm, why="fantasy model of step %d, observed after %s: %s" % (fi, later, why),
+                                        settings={}, stale_jit=False, stale_cls=False, fantasy=True), compared, evs
         except core.Machinery:
             raise
         except Exception as e:  # the implementation raised where the spec enables the operation
@@ -233,6 +260,8 @@ def signature(family, ops, fail):
         return "C03/%s/strategy-class-fixed-at-creation-by-lazily_evaluate_kernels" % family
     if fail.get("stale_xb") and fail["what"] in ("mean", "covariance") and family == "kiss":
         return "C03/kiss/fast_pred_var-covar_cache-keeps-the-test-batch-shape-of-the-call-that-filled-it"
+    if fail.get("fantasy"):
+        return "C03/%s/GetFantasy-then:%s/%s" % (family, "+".join(sorted(set(o["a"] for o in ops[i + 1:]))) or "nothing", fail["what"])
     since = []
     for op in ops[:i][::-1]:
         if op["a"] in ("Predict", "PriorPredict"):
